@@ -104,6 +104,12 @@ func (s *Durable) fetch(item string) Value {
 	return newValue()
 }
 
+// Evict removes the item from the read cache, must be called once the transaction
+// which changed the item is committed so that readers do not see stale values.
+func (s *Durable) evict(item string) {
+	s.cache.Del(binary.ToBytes(item))
+}
+
 // Add adds a value to the set.
 func (s *Durable) Add(item string, value []byte) {
 	s.db.Update(func(tx *buntdb.Tx) error {
@@ -115,6 +121,7 @@ func (s *Durable) Add(item string, value []byte) {
 		}
 		return nil
 	})
+	s.evict(item)
 }
 
 // Del removes the value from the set.
@@ -127,6 +134,7 @@ func (s *Durable) Del(item string) {
 		}
 		return nil
 	})
+	s.evict(item)
 }
 
 // Has checks if a value is present in the set.
@@ -145,6 +153,13 @@ func (s *Durable) Merge(other Map) {
 	r := other.(*Volatile)
 	r.lock.Lock()
 	defer r.lock.Unlock()
+
+	updated := make([]string, 0, len(r.data))
+	defer func() {
+		for _, key := range updated {
+			s.evict(key)
+		}
+	}()
 
 	s.db.Update(func(stx *buntdb.Tx) error {
 		for key, rt := range r.data {
@@ -170,6 +185,7 @@ func (s *Durable) Merge(other Map) {
 				st.setValue(rt.Value()) // Set the new value
 				s.store(stx, key, st)   // Merge the new value
 				r.data[key] = rt        // Update the delta
+				updated = append(updated, key)
 			}
 		}
 
